@@ -175,7 +175,11 @@ class ParCheck:
             'scenarios': len(order), 'distinct_tag_sequences': len(tagseqs), 'stress': stress_info,
             'explanation': "theorems about arbitrary interleavings of the runtime's atomic actions checked by the Lean kernel; every schedule explored on the real crate is replayed on the model and judged by a model-free linearizability oracle",
         })
+        self.extra(rep, tier, seed)
         return rep.finish()
+
+    def extra(self, rep, tier, seed):
+        pass
 
     def stress(self, tier, seed, rep):
         return None
